@@ -280,6 +280,7 @@ class C06(HistoryProperty):
 
     def gen_case(self, rng, tier):
         cfg = gen.swarm_cfg(rng, off=("shape_change", "alloptions", "dangling", "tmpl_preset"), on=("dispatch", "overloads", "opt_default_expr", "dsclass", "namespace"))
+        cfg["posonly_params"] = rng.random() < 0.4  # dataset functions with positional-only parameters
         cfg["map_partial"] = True
         cfg["namespace_keys"] = True
         cfg["returns_node"] = rng.random() < 0.5  # bodies handing back an Evaluatable OBJECT as a plain value
